@@ -54,7 +54,10 @@ func InitRandom(rg *VP8Random, dithering float32) {
 func RandomBits2(rg *VP8Random, numBits, amp int) int {
 	diff := int(rg.tab[rg.index1]) - int(rg.tab[rg.index2])
 	if diff < 0 {
-		diff += 1 << 31
+		// Both table entries are 31-bit, so diff is in (-2^31, 0) here and
+		// masking equals diff + 2^31 (C: diff += 1u << 31). Written as a mask
+		// because the constant 1<<31 does not fit a 32-bit int (386/arm/mips).
+		diff &= 0x7fffffff
 	}
 	rg.tab[rg.index1] = uint32(diff)
 	rg.index1++
